@@ -241,23 +241,114 @@ lemma("cog.flat_tile_idx_bijective", ["C05"], inputs=dict(ns=Int(ge=1), ny=Int(g
 TILEREC = Tup(Int(), Int(), Int(), Int(), Int(ge=0))  # (level, plane, y, x, size)
 
 
-class _MetaStandIn:
-    """a flattened pyramid seen through what _extract_tile_info uses: flatten(), per level num_tiles and
-    flat_tile_idx (an injective map into [0, num_tiles): uninterpreted, see cog.flat_tile_idx_bijective)"""
-
-    def __init__(self, nlevels, ntiles):
-        self.levels = [_LevelStandIn(k, ntiles[k]) for k in range(nlevels)]
-
-    def flatten(self):
-        return tuple(self.levels)
-
-
 class _LevelStandIn:
+    """one level of a flattened pyramid seen through what _extract_tile_info uses: num_tiles and flat_tile_idx -- an
+    UNINTERPRETED map of (plane, y, x) into [0, num_tiles) (that the real flat_tile_idx is in range and injective on
+    valid indexes is its own contract + lemma cog.flat_tile_idx_bijective; distinct table slots for distinct tiles
+    is a precondition here)"""
+
     def __init__(self, k, ntiles):
         self.k, self.num_tiles = k, ntiles
 
+    def slot(self, p, y, x):
+        import z3
+
+        from pyvc.sym import SymInt, term_of
+
+        f = z3.Function(f"fti{self.k}", z3.IntSort(), z3.IntSort(), z3.IntSort(), z3.IntSort())
+        return SymInt(f(*[term_of(v)[0] if term_of(v) is not None else z3.IntVal(int(v)) for v in (p, y, x)]))
+
     def flat_tile_idx(self, pyx):
-        raise NotImplementedError
+        return self.slot(*pyx)
+
+
+class _MetaStandIn:
+    def __init__(self, ntiles):
+        self.levels = tuple(_LevelStandIn(k, n) for k, n in enumerate(ntiles))
+
+    def flatten(self):
+        return self.levels
+
+    def __vc_src__(self, model, c):
+        from pyvc.engine import to_src
+
+        return "R('contracts.cog_c:_eti_native_meta')(" + to_src([lv.num_tiles for lv in self.levels], model, c) + ")"
+
+
+def _eti_native_meta(ntiles):
+    """a real CogMeta whose level k has exactly ntiles[k] tiles (one row of 16 x 16 tiles): slot of (0, 0, x) is x"""
+    from odc.geo.cog._shared import CogMeta
+    from odc.geo.types import wh_
+
+    lv = [CogMeta("YX", wh_(16 * max(1, int(n)), 16), wh_(16, 16), 1, "uint8", 8, 1) for n in ntiles]
+    lv[0].overviews = tuple(lv[1:])
+    return lv[0]
+
+
+def _slot_of(meta, rec):
+    lv = meta.flatten()
+    k = rec[0]
+    if symbolic():
+        acc = lv[-1].slot(rec[1], rec[2], rec[3])
+        for q in range(len(lv) - 2, -1, -1):
+            acc = Ite(k == q, lv[q].slot(rec[1], rec[2], rec[3]), acc)
+        return acc
+    return lv[k].flat_tile_idx((rec[1], rec[2], rec[3]))
+
+
+def _ntiles_of(meta, k):
+    lv = meta.flatten()
+    if symbolic():
+        acc = lv[-1].num_tiles
+        for q in range(len(lv) - 2, -1, -1):
+            acc = Ite(k == q, lv[q].num_tiles, acc)
+        return acc
+    return lv[k].num_tiles
+
+
+def _eti_pre(meta, tiles, start_offset, P):
+    """P = running byte position (ghost): P[0] = start, P[j+1] = P[j] + size_j; records address valid, pairwise distinct slots"""
+    n = seq_len(tiles)
+    nl = len(meta.flatten())
+    rec = lambda j: seq_get(tiles, j)
+    return And(
+        seq_len(P) == n + 1,
+        seq_get(P, 0) == start_offset,
+        forall(0, n, lambda j: seq_get(P, j + 1) == seq_get(P, j) + rec(j)[4]),
+        forall(0, n, lambda j: And(0 <= rec(j)[0], rec(j)[0] < nl, rec(j)[4] >= 0, 0 <= _slot_of(meta, rec(j)), _slot_of(meta, rec(j)) < _ntiles_of(meta, rec(j)[0]))),
+        forall(0, n, lambda i: forall(0, n, lambda j: Implies(And(i != j, rec(i)[0] == rec(j)[0]), _slot_of(meta, rec(i)) != _slot_of(meta, rec(j))))),
+    )
+
+
+def _eti_entry(info, meta, rec):
+    """(offset, length) stored for the slot the record addresses"""
+    k = rec[0]
+    t = _slot_of(meta, rec)
+    nl = len(info)
+    off, ln = seq_get(info[nl - 1][0], t), seq_get(info[nl - 1][1], t)
+    for q in range(nl - 2, -1, -1):
+        off, ln = Ite(k == q, seq_get(info[q][0], t), off), Ite(k == q, seq_get(info[q][1], t), ln)
+    return off, ln
+
+
+def _eti_written(info, meta, tiles, P, upto):
+    rec = lambda j: seq_get(tiles, j)
+    return forall(0, upto, lambda j: Implies(rec(j)[4] != 0, And(_eti_entry(info, meta, rec(j))[0] == seq_get(P, j), _eti_entry(info, meta, rec(j))[1] == rec(j)[4])))
+
+
+def _eti_sizes(info, meta):
+    return And(*[And(seq_len(a) == lv.num_tiles, seq_len(b) == lv.num_tiles) for (a, b), lv in zip(info, meta.flatten())])
+
+
+def _eti_inputs(nlevels):
+    nt = Tup(*[Int(ge=1)] * nlevels)
+    return dict(
+        ntiles=nt,
+        meta=Derived(lambda ntiles: _MetaStandIn(ntiles) if symbolic() else _eti_native_meta(ntiles), "pyramid of that many levels with ntiles[k] tiles on level k"),
+        tiles=SeqOf(TILEREC, "list"),
+        start_offset=Int(ge=0),
+        P=SeqOf(Int(), "list", min_len=1),
+    )
 
 
 def _eti_samples():
@@ -278,7 +369,11 @@ def _eti_samples():
             sizes = [rnd.choice([0, 1, 7, 500]) for _ in recs]
             if rnd.random() < 0.5:
                 rnd.shuffle(recs)
-            yield dict(meta=m0, tiles=[(*r, sz) for r, sz in zip(recs, sizes)], start_offset=rnd.choice([0, 8, 12345]))
+            start = rnd.choice([0, 8, 12345])
+            P = [start]
+            for sz in sizes:
+                P.append(P[-1] + sz)
+            yield dict(meta=m0, tiles=[(*r, sz) for r, sz in zip(recs, sizes)], start_offset=start, P=P, ntiles=tuple(mm.num_tiles for mm in m0.flatten()))
 
     return "36 two-level pyramids (3 axis orders x 3 shapes x 2 tile sizes x 1/3 samples), tile records in COG or shuffled order, sizes in {0,1,7,500}", gen()
 
@@ -300,13 +395,33 @@ def _eti_post(meta, tiles, start_offset, result):
     return ok and nogaps
 
 
+def _eti_post_native(meta, tiles, start_offset, result):
+    if symbolic():
+        return True
+    return _eti_post(meta, tiles, start_offset, result)
+
+
 contract(
     f"{TF}:_extract_tile_info",
     ["C05"],
-    ensures=[("every tile's offset/byte-count entry addresses exactly that tile's bytes in the stream: offsets are the prefix sums of the sizes, no gaps, no overlaps; absent tiles stay (0, 0)", _eti_post)],
-    verify=False,
-    trusted_reason="python lists indexed by a computed position inside a loop over the tile stream: BOUNDED native check (the proved part is that flat_tile_idx is injective and in range, and C06 that the stream handed to the header callback is the complete ordered list)",
+    inputs=[_eti_inputs(n) for n in (1, 2, 3)],
+    requires=[_eti_pre],
+    ensures=[
+        ("one (offsets, byte counts) table per level, one entry per tile", lambda meta, result: And(len(result) == len(meta.flatten()), _eti_sizes(result, meta))),
+        (
+            "every non-empty tile's entry addresses exactly that tile's bytes: offset = start + total size of the tiles before it in the stream, byte count = its size (consecutive in stream order: no gaps, no overlaps)",
+            lambda meta, tiles, P, result: _eti_written(result, meta, tiles, P, seq_len(tiles)),
+        ),
+        ("bounded-part: the whole table incl. absent tiles (native samples)", _eti_post_native),
+    ],
+    loops={
+        0: LoopSpec(
+            invariant=lambda tile_info, byte_offset, meta, tiles, P, _k: And(byte_offset == seq_get(P, _k), _eti_sizes(tile_info, meta), _eti_written(tile_info, meta, tiles, P, _k)),
+            modifies=lambda tile_info: [q for pair in tile_info for q in pair],
+        )
+    },
     native_samples=_eti_samples,
+    note="proved for a stream of ANY length over 1-3 pyramid levels with any tile counts (loop invariant over the running byte position; the level's slot map is an uninterpreted injective function: flat_tile_idx's own contract and lemma); the bounded native samples additionally check the whole table incl. absent tiles on real CogMeta pyramids",
 )
 
 # ---- _make_empty_cog: layout of the pages (tifffile involved -> bounded) -------------------------------------------------------------------
